@@ -267,7 +267,30 @@ func c11(g *Gen) {
 					}
 				}
 			}
-			g.Emit("C11.errors!", list(atom(strings.Join(eprob, "; "))), boolS(len(eprob) == 0), "bad-requests", "half-parsable-package-requested-again")
+			// a package that parses but does not type-check (an undefined name): whatever the loader's policy is,
+			// it is the same whether the package is requested first, requested twice, or first seen as a dependency
+			os.MkdirAll(filepath.Join(base, "typeerr"), 0755)
+			os.WriteFile(filepath.Join(base, "typeerr", "file.go"), []byte("package typeerr\n\ntype T struct{ A int }\n\nvar Default = NewT()\n"), 0644)
+			os.MkdirAll(filepath.Join(base, "usestypeerr"), 0755)
+			os.WriteFile(filepath.Join(base, "usestypeerr", "file.go"), []byte(fmt.Sprintf("package usestypeerr\n\nimport \"ex.test/c%d/typeerr\"\n\ntype H struct{ X typeerr.T }\n", i)), 0644)
+			{
+				te, ute := fmt.Sprintf("ex.test/c%d/typeerr", i), fmt.Sprintf("ex.test/c%d/usestypeerr", i)
+				b1 := parser.New()
+				first := b1.AddDir(te) != nil
+				again := b1.AddDir(te) != nil
+				b2 := parser.New()
+				later := true
+				if err := b2.AddDir(ute); err == nil {
+					if u, err := b2.FindTypes(); err == nil {
+						_, err := b2.AddDirectoryTo(te, &u)
+						later = err != nil
+					}
+				}
+				if first != again || first != later {
+					eprob = append(eprob, fmt.Sprintf("a package that does not type-check: requested first error=%v, requested again error=%v, requested after having been a dependency error=%v", first, again, later))
+				}
+			}
+			g.Emit("C11.errors!", list(atom(strings.Join(eprob, "; "))), boolS(len(eprob) == 0), "bad-requests", "half-parsable-package-requested-again", "ill-typed-package-in-three-histories")
 		}
 		os.RemoveAll(filepath.Join(src, "ex.test", fmt.Sprintf("c%d", i)))
 	}
